@@ -718,7 +718,7 @@ func checkC09(w *World) {
 	// R09.10 xmlns="" removes a binding
 	w.namespaceUndeclared(P)
 	// namespace nodes belong to their element: ownership rules of the store
-	w.include(P, "C10", "R10.2", "R10.3", "R10.5", "R10.8", "R10.9")
+	w.include(P, "C10", "R10.2", "R10.3", "R10.5", "R10.8", "R10.9", "R10.10")
 	w.include(P, "C17", "R17.5") // the adapters of package parser share no growing package-level state
 }
 
@@ -1462,6 +1462,29 @@ func (w *World) namespaceUndeclared(P string) {
 				r.predOK = true
 			}
 		})
+		// inline form of the prefix test: a comparison of Prefix() values one of which belongs to an element of D
+		if !r.predSeen {
+			allInstrs(fn, func(in ssa.Instruction) {
+				bo, ok := in.(*ssa.BinOp)
+				if !ok || (bo.Op != token.EQL && bo.Op != token.NEQ) {
+					return
+				}
+				rx, okx := isMethodCall(bo.X, "Prefix")
+				ry, oky := isMethodCall(bo.Y, "Prefix")
+				if !okx || !oky {
+					return
+				}
+				r.predSeen = true
+				for _, recv := range []ssa.Value{rx, ry} {
+					if sliceContains(recv, func(v ssa.Value) bool {
+						ia, ok := v.(*ssa.IndexAddr)
+						return ok && ia.X == D
+					}) {
+						r.predOK = true
+					}
+				}
+			})
+		}
 		rb = r
 	})
 	if rb != nil {
